@@ -487,7 +487,18 @@ func c15History(out *vh.Out, h *vc15.History, final *vc15.Probe) {
 		keys := h.HistoryKeys(upto)
 		d0 := vc15.DumpTable(checks[0].userToEmail.(module.MultiTable), keys)
 		out.Corr(h.OpLine(upto, nil), d0)
-		if d1 := vc15.DumpTable(checks[1].userToEmail.(module.MultiTable), keys); d1 != d0 {
+		d1 := vc15.DumpTable(checks[1].userToEmail.(module.MultiTable), keys)
+		// Two reloaders read the one file at their own pace: a difference that is gone after both were
+		// made to reload again was a reload still in flight, not a disagreement. One that stays is reported.
+		for try := 0; d1 != d0 && try < 3 && upto >= 0; try++ {
+			if !c15Reload() {
+				break
+			}
+			out.Stat("file.dump.re-read-after-difference")
+			d0 = vc15.DumpTable(checks[0].userToEmail.(module.MultiTable), keys)
+			d1 = vc15.DumpTable(checks[1].userToEmail.(module.MultiTable), keys)
+		}
+		if d1 != d0 {
 			out.Violation("C15/instances-of-one-configuration-disagree", h.OpLine(upto, nil), "table content "+d0+" <> "+d1)
 		}
 	}
